@@ -10,6 +10,11 @@ Streams (Model/Derive.lean):
   * `C17_stream_prefix_stable`    : later derivations never change what an existing stream value denotes.
   * `C17_stream_heap_untouched`   : derivations never write to an existing backing array.
   * `C17_witness_unrepaired_stream` : the pre-repair `append(s.allLifecycleElement, lch)` violates it when len < cap.
+  * derivation kinds: WithAdditionalLifecycle / lock (clip + append), Filter / Map / Limit / Skip / Peek (share the slice
+    value), concurrent Map (`Kind.concMap`: fresh `[guard]`, then `append` of the parent's list — `cml_spec`).
+  * `C17_witness_insert_in_place` : prepending the guard with `slices.Insert(parent's slice, 0, guard)` instead writes
+                                    the parent's array when len < cap (the parent loses its last element).
+Custom-metadata maps: `Props/C17Maps.lean`.
 Queries (Model/RowAlias.lean):
   * `C17_query_no_mutation`       : running any row program leaves every pre-existing array — hence every cell seen
                                     through any caller slice, spare capacity included — unchanged.
